@@ -85,6 +85,13 @@ CLAIMED = {
         "Witness principle for quadratic goals (one-sided sound); rows whose LP margin is below 1e-6 are dropped (the property is about in-gamut targets).",
         "DESIGN.md section 6 C08",
     ),
+    "C09": (
+        "Hypothesis property-based testing: BVLS for the best achievable error, SLSQP witnesses (verified feasible) for the minimal summed variance, closed-form K^2 propagation for the reported variance",
+        "Generated under-/exactly-determined systems x in/out-of-gamut targets x variance models (None, 'heteroscedastic', explicit, from 2-D filter std, from 3-D filter samples) x optional L1 request, "
+        "high-accuracy and default settings; membership in the tolerance set, variance no larger than a feasible witness and than the ordinary fit, reported variance = model applied to X.",
+        "Witness principle (one-sided sound); estimator-level variance models use one-hot sources so that captures equal filter values.",
+        "DESIGN.md section 6 C09",
+    ),
 }
 
 PENDING_REASON = "check not built yet in this revision (planned, see DESIGN.md section 6); not claimed until its check runs quietly on the unchanged tree"
